@@ -348,9 +348,6 @@ int janet_fiber_funcframe_tail(JanetFiber *fiber, JanetFunction *func) {
 #endif
     }
 
-    Janet *stack = fiber->data + fiber->frame;
-    Janet *args = fiber->data + fiber->stackstart;
-
     /* Detach old function */
     if (NULL != janet_fiber_frame(fiber)->func)
         janet_env_detach(janet_fiber_frame(fiber)->env);
@@ -380,6 +377,10 @@ int janet_fiber_funcframe_tail(JanetFiber *fiber, JanetFunction *func) {
         stacksize = fiber->stacktop - fiber->stackstart;
     }
 
+    /* Compute the source and destination only now: building the vararg tuple
+     * above may have reallocated the fiber's stack. */
+    Janet *stack = fiber->data + fiber->frame;
+    Janet *args = fiber->data + fiber->stackstart;
     if (stacksize) memmove(stack, args, stacksize * sizeof(Janet));
 
     /* Nil unset locals (Needed for functional correctness) */
